@@ -201,6 +201,9 @@ func (m *c04Mon) Step(w *sessmc.World, e *sessmc.Event, obs []sessmc.Obs) (rule,
 		}
 	}
 	if !recovering(st) {
+		if T <= m.gapEnd {
+			return "C04/R3-recovery-abandoned state=" + prev, fmt.Sprintf("numbers %d..%d are still missing but the session left recovery (state %s → %s); kept messages %v are forgotten", T, m.gapEnd, prev, st, sn.Stash)
+		}
 		m.active = false
 	}
 	return "", ""
